@@ -221,6 +221,22 @@ def c10_7(facts, res):
         res.add(Finding("C10-7", "default-key", "Element::namespace_name looks an unprefixed element up with the key %r, find_nameapce_uri files the "
                         "in-scope default namespace under %r: an inherited default namespace is not found and the element is "
                         "reported in no namespace" % (k1, k2), finder["file"], finder["line"], {}))
+    # the element's own declarations: xmlns:p is filed under "p" and xmlns under "xmlns", i.e. under the attribute's local name
+    st["instances"] += 1
+    own_ok = False
+    for n in walk(finder["body"]):
+        if n.get("k") == "Match" and n.get("src") == "ForLoop" and any(x.get("k") == "MethodCall" and x["m"] == "namespace_attributes" for x in walk(n["scrut"])):
+            for c in walk(n):
+                if c.get("k") == "Binary" and c.get("op") == "==":
+                    sides = [c["a"], c["b"]]
+                    if any(x.get("k") == "MethodCall" and x["m"] == "local_name" for x in sides) and \
+                            not any(y.get("k") == "MethodCall" and y["m"] in ("prefix", "unwrap_or", "unwrap_or_default") for x in sides for y in walk(x)):
+                        own_ok = True
+    res.oblige(1, own_ok)
+    if not own_ok:
+        res.add(Finding("C10-7", "own-declaration-key", "find_nameapce_uri does not compare the wanted prefix with the local name of the element's own "
+                        "namespace attributes (xmlns:p -> \"p\", xmlns -> \"xmlns\"): every xmlns:* declaration would answer for the default namespace",
+                        finder["file"], finder["line"], {}))
     # own xmlns="" is filtered
     empties = [m for m in walk(finder["body"]) if m.get("k") == "MethodCall" and m["m"] == "is_empty"]
     res.oblige(1, bool(empties))
